@@ -147,9 +147,9 @@ func init() {
 			"non-trivial = at least one injected feature was dropped or rejected",
 		Assumptions: []string{"golang/geo Loop.Validate and Loop.Area decide loop validity and orientation", "clockwise closed paths may be inverted by builders (then they must be counter-clockwise in the world)"},
 		Quick:       300, Thorough: 30000,
-		Batch:       10,
-		CaseCap:     15 * time.Minute,
-		Required:    required,
+		Batch:    10,
+		CaseCap:  15 * time.Minute,
+		Required: required,
 		Run: func(c *core.Ctx) {
 			r := c.R
 			kind := []string{"basic", "basic-mutable", "mutable-overlay", "basic", "compact", "mutable-overlay", "basic-mutable", "basic"}[c.Index%8]
